@@ -11,7 +11,7 @@ import fcorr
 import vlib
 
 META = {
-    "text": "ON THE PRIMITIVE-FLOAT RUN (C12/PidFloat.v, 3 theorems, plain and single-neuron controllers): for finite output limits outmin <= outmax and ANY state, gains, "
+    "text": "ON THE PRIMITIVE-FLOAT RUN (C12/PidFloat.v + C13/FuzzyFloat.v, 4 theorems: plain, single-neuron and fuzzy-tuned controllers): for finite output limits outmin <= outmax and ANY state, gains, "
             "set-point and feedback (NaN and infinities included) a_pid_run_/pos_/inc_ at Coq's binary64 floats - the instance "
             "compared bit for bit with the C - store a finite output within the limits, over every non-empty history; no overflow "
             "hypothesis (state finiteness is not claimed there).  "
